@@ -137,6 +137,48 @@ inline void build_recipe(int r, std::optional<V> &opt, std::vector<int> &vals, i
   }
 }
 
+/// Operations for which the headers document the strong guarantee (element moves being noexcept).
+inline bool strong_guarantee(const Op &op, int sz) {
+  switch (op.k) {
+    case PUSH_C: case PUSH_M: case EMPLACE_BACK: case INS_C: case INS_M: case EMPLACE: case PUSH_ALIAS:
+    case EMPLACE_BACK_ALIAS: case INS_ALIAS: case EMPLACE_ALIAS: case APPEND_N: case APPEND_NV: case APPEND_RANGE:
+    case APPEND_IL: case APPEND_ALIAS: case RESERVE: case SHRINK:
+      return true;
+    case INS_N: case INS_RANGE: case INS_IL: case INS_N_ALIAS:
+      return op.a == sz;  // insertion at the end
+    case RESIZE: case RESIZE_V: case RESIZE_ALIAS:
+      return op.a > sz;  // growing resize
+    default:
+      return false;
+  }
+}
+
+/// After an injected fault: every container must be in a consistent state (checked by observe() and the ledgers);
+/// strong-guarantee operations must have left the target untouched, const sources must be untouched; the model
+/// is then re-read from the containers so that exploration continues from the state the fault left behind.
+inline void fault_epilogue(World &w, const Op &op, const std::vector<int> *pre_model, int sz) {
+  const char *nm = kind_name(op.k);
+  for (int x = 0; x < w.K; ++x) {
+    V &c = w.slot[x].v();
+    if (!((long)c.size() <= (long)c.capacity())) vf::fail("C09", "%s after a fault: size %ld > capacity %ld", nm, (long)c.size(), (long)c.capacity());
+    std::vector<int> now = read_vals(c);
+    const bool is_target = x == op.i;
+    const bool fresh = op.k == COPY_CONSTRUCT || op.k == COPY_CTOR_T || op.k == CTOR_COUNT || op.k == CTOR_COUNT_V || op.k == CTOR_RANGE || op.k == CTOR_IL;
+    if (is_target && fresh) {
+      // the constructor threw: no object exists (the harness put an empty one in the slot)
+    } else if (is_target && op.k == COPY_CTOR_SELF) {
+      if (now != pre_model[x]) vf::fail("C09", "failed copy construction modified its source");
+    } else if (is_target) {
+      if (strong_guarantee(op, sz) && now != pre_model[x])
+        vf::fail("C09", "%s: strong exception guarantee broken (contents changed by the failed call, size %zu -> %zu)", nm, pre_model[x].size(), now.size());
+    } else if (now != pre_model[x]) {
+      vf::fail("C09", "%s: failed call modified another container", nm);
+    }
+    w.m[x].v = now;
+    w.m[x].ent = false;  // C05 is not quantified over faults: a failed growth may legitimately leave a heap buffer
+  }
+}
+
 inline void apply(World &w, const Op &op) {
   const char *nm = kind_name(op.k);
   const int i = op.i;
@@ -147,6 +189,10 @@ inline void apply(World &w, const Op &op) {
   const Snap pre = snap(VV);
   const int sz = (int)m.v.size();
   int base = model_max(w);
+  g_cur_fault = op.f;
+  std::vector<int> pre_model[MAXK];
+  if (op.f)
+    for (int x = 0; x < w.K; ++x) pre_model[x] = w.m[x].v;
   Eff e;
   const bool ent0 = m.ent;
   auto over = [&](long ns) { return kFixedThrow && ns > N; };
@@ -156,6 +202,7 @@ inline void apply(World &w, const Op &op) {
     arm(pre, touch_from, ns);
     win(call);
     disarm();
+    if (faulted()) return;  // handled by fault_epilogue()
     if (over(ns)) {
       g_overlimit = true;
       if (!W().exc || W().exc_kind != 1)
@@ -324,6 +371,7 @@ inline void apply(World &w, const Op &op) {
       e.touch_from = sz;
       win([&] { VV.reserve((typename V::size_type)n); });
       disarm();
+      if (faulted()) break;
       if (kFixedThrow && n > N) {
         g_overlimit = true;
         if (!W().exc || W().exc_kind != 1) vf::fail("C08,C01", "reserve(%d) beyond fixed capacity did not throw out_of_range", n);
@@ -339,6 +387,7 @@ inline void apply(World &w, const Op &op) {
     case SHRINK: {
       e.cap_may_shrink = true;
       win([&] { VV.shrink_to_fit(); });
+      if (faulted()) break;
       if (W().exc) vf::fail("C01", "shrink_to_fit: unexpected exception");
       if (kSmall && sz <= N) m.ent = true;
       chk_noalloc(kFixed || (kSmall && ent0), nm);
@@ -431,6 +480,7 @@ inline void apply(World &w, const Op &op) {
       V &alias = VV;
       e.cap_may_shrink = true;
       win([&] { VV = std::move(alias); });
+      if (faulted()) break;
       if (W().exc) vf::fail("C01", "self move assignment threw");
       m.v = read_vals(VV);
       if ((int)m.v.size() > sz) vf::fail("C01", "self move assignment grew the vector");
@@ -440,6 +490,7 @@ inline void apply(World &w, const Op &op) {
       e.cap_may_shrink = true;
       V &alias = VV;
       win([&] { VV.swap(alias); });
+      if (faulted()) break;
       if (W().exc) vf::fail("C01", "self swap threw");
       chk_noalloc(kFixed || (kSmall && ent0), nm);
       post(w, i, pre, e, nm);
@@ -450,6 +501,7 @@ inline void apply(World &w, const Op &op) {
       void *dst = S.other();
       vf::L().reset_counters();
       win([&] { if (mv) ::new (dst) V(std::move(VV)); else ::new (dst) V(static_cast<const V &>(VV)); });
+      if (faulted()) break;
       if (W().exc) { vf::fail("C01", "%s threw", nm); break; }
       V &nv = *std::launder(reinterpret_cast<V *>(dst));
       if (mv) {
@@ -485,6 +537,7 @@ inline void apply(World &w, const Op &op) {
       arm(pre, 0, (long)mo.v.size());
       win([&] { if (mv) VV = std::move(o); else VV = static_cast<const V &>(o); });
       disarm();
+      if (faulted()) break;
       if (W().exc) vf::fail("C01", "%s threw", nm);
       m.v = mo.v;
       if (mv) {
@@ -518,6 +571,7 @@ inline void apply(World &w, const Op &op) {
       e.cap_may_shrink = true;
       vf::L().reset_counters();
       win([&] { if (op.k == SWAP_MEMBER) VV.swap(o); else { using std::swap; swap(VV, o); } });
+      if (faulted()) break;
       if (W().exc) vf::fail("C01", "swap threw");
       std::swap(m.v, mo.v);
       const bool both = m.ent && mo.ent;
@@ -545,6 +599,7 @@ inline void apply(World &w, const Op &op) {
         if (mv) ::new (where) V(std::move(o)); else ::new (where) V(static_cast<const V &>(o));
       });
       vp = &S.v();
+      if (faulted()) break;
       if (W().exc) vf::fail("C01", "%s threw", nm);
       m.v = mo.v;
       if (mv) {
@@ -586,6 +641,7 @@ inline void apply(World &w, const Op &op) {
         arm(pre, 0, (long)tv.size());
         win([&] { VV = static_cast<const V &>(t); });
         disarm();
+        if (faulted()) break;
         if (W().exc) vf::fail("C01", "%s threw", nm);
         m.v = tv;
         if ((int)m.v.size() > N) m.ent = false;
@@ -594,6 +650,7 @@ inline void apply(World &w, const Op &op) {
       } else if (op.k == MOVE_ASSIGN_T) {
         e.cap_may_shrink = true;
         win([&] { VV = std::move(t); });
+        if (faulted()) break;
         if (W().exc) vf::fail("C01", "%s threw", nm);
         m.v = tv;
         if (!t.empty()) vf::fail("C01", "moved-from vector is not empty (size %ld)", (long)t.size());
@@ -616,6 +673,7 @@ inline void apply(World &w, const Op &op) {
       } else if (op.k == SWAP_T) {
         e.cap_may_shrink = true;
         win([&] { VV.swap(t); });
+        if (faulted()) break;
         if (W().exc) vf::fail("C01", "%s threw", nm);
         if (read_vals(t) != m.v) vf::fail("C01", "swap: the other operand did not receive our elements");
         if (heap_backed(pre) && heap_backed(pret)) {
@@ -632,6 +690,7 @@ inline void apply(World &w, const Op &op) {
           if (mv) ::new (where) V(std::move(t)); else ::new (where) V(static_cast<const V &>(t));
         });
         vp = &S.v();
+        if (faulted()) break;
         if (W().exc) vf::fail("C01", "%s threw", nm);
         m.v = tv;
         if (mv) {
@@ -665,6 +724,7 @@ inline void apply(World &w, const Op &op) {
       T a = E::make(n > 0 ? vals[0] : 0), b = E::make(n > 1 ? vals[1] : 0), c = E::make(n > 2 ? vals[2] : 0);
       auto finish = [&] {
         vp = &S.v();
+        if (faulted()) return;
         if (over(n)) {
           g_overlimit = true;
           if (!W().exc || W().exc_kind != 1) vf::fail("C08,C01", "%s: constructing %d > N elements %s", nm, n, W().exc ? "threw the wrong exception" : "did not throw");
@@ -720,6 +780,8 @@ inline void apply(World &w, const Op &op) {
     default:
       break;
   }
+  if (faulted()) fault_epilogue(w, op, pre_model, sz);
+  g_cur_fault = 0;
 #undef VV
 }
 
